@@ -1,4 +1,5 @@
 """Sharding of an enumeration over long-lived worker processes (fork)."""
+import atexit
 import multiprocessing
 import os
 import time
@@ -47,8 +48,7 @@ def run_shards(fn, items, deadline, workers=None, into=None, ordered=False):
                 raise HarnessError("shard %r failed: %s" % (it, val))
             total.merge(val)
         return total
-    ctx = multiprocessing.get_context("fork")
-    pool = ctx.Pool(min(workers, len(items)))
+    pool = _get_pool(workers)
     try:
         packed = [(fn, it, deadline) for it in items]
         it = pool.imap(_call, packed, chunksize=1) if ordered else pool.imap_unordered(_call, packed, chunksize=1)
@@ -56,10 +56,38 @@ def run_shards(fn, items, deadline, workers=None, into=None, ordered=False):
             if kind != "ok":
                 raise HarnessError("shard failed: %s" % (val,))
             total.merge(val)
-    finally:
-        pool.terminate()
-        pool.join()
+    except BaseException:
+        _drop_pool()
+        raise
     return total
+
+
+_POOL = None
+_POOL_SIZE = 0
+
+
+def _get_pool(workers):
+    """One long-lived pool of forked workers per process (forking per call costs ~0.1 s, which a level-synchronous
+    search pays hundreds of times)."""
+    global _POOL, _POOL_SIZE
+    if _POOL is None or _POOL_SIZE != workers:
+        _drop_pool()
+        ctx = multiprocessing.get_context("fork")
+        _POOL = ctx.Pool(workers)
+        _POOL_SIZE = workers
+        atexit.register(_drop_pool)
+    return _POOL
+
+
+def _drop_pool():
+    global _POOL
+    if _POOL is not None:
+        try:
+            _POOL.terminate()
+            _POOL.join()
+        except Exception:
+            pass
+        _POOL = None
 
 
 def chunks(seq, n):
